@@ -178,6 +178,7 @@ int sbdf_read_metadata_values(FILE* in, sbdf_valuetype vt, sbdf_metadata* out)
 	{
         if (v != 1)
         {
+            sbdf_obj_destroy(value);
             return SBDF_ERROR_ARRAY_LENGTH_MUST_BE_1;
         }
 
@@ -676,7 +677,7 @@ int sbdf_tm_write(FILE* out, sbdf_tablemetadata const* in)
 
 				if (error = sbdf_obj_write(meta->value, out))
 				{
-					return error;
+					goto end;
 				}
 			}
 			else if (error = sbdf_write_int8(out, 0))
